@@ -139,6 +139,10 @@ PAIRS_FILE = [('set_c', 'get_b'), ('set_c', 'asdict'), ('set_c', 'len'), ('set_c
               ('set_a', 'asdict'), ('set_a', 'open'), ('del_a', 'asdict'), ('del_a', 'open'), ('set_a', 'in_a'), ('set_a', 'iter')]
 TRIPLES_DIR = [('set_c', 'set_d', 'len'), ('set_c', 'set_d', 'asdict')]
 # opening the way most programs do (cached=True, the default: an in-memory cache in front of the archive), on an empty and on a filled archive
+# sqlite-file table archive: writer/reader pairs at the granularity of klepto's own statements (execute / commit / select);
+# sqlite's page-level locking between real processes is C/OS code and stays outside (no writer/writer pairs)
+PAIRS_SQL = [('set_a', 'get_a'), ('set_a', 'asdict'), ('set_a', 'len'), ('set_a', 'in_a'), ('set_a', 'iter'), ('set_a', 'load'),
+             ('set_c', 'get_b'), ('set_c', 'asdict'), ('del_a', 'asdict'), ('del_a', 'get_b')]
 PAIRS_OPEN = [('set_c', 'open_cached'), ('set_a', 'open_cached'), ('del_a', 'open_cached')]
 WRITERS = ('set_a', 'set_b', 'set_c', 'set_d', 'del_a')
 
@@ -164,12 +168,21 @@ class Conc:
         self.cfg = cfg
 
     def install(self):
-        return arch.installer().install()
+        undo1 = arch.installer().install()
+        self.shim, undo2 = sqlshim.install()
+        self.scratch = tempfile.mkdtemp(prefix='ksym_sql_') if self.cfg['kind'].startswith('sql') else None
+
+        def undo():
+            undo2()
+            undo1()
+            if self.scratch:
+                shutil.rmtree(self.scratch, ignore_errors=True)
+        return undo
 
     def signature(self, label, info):
         info = info or {}
         k = self.cfg['kind']
-        fam = 'dir' if k.startswith('dir') else 'file'
+        fam = 'dir' if k.startswith('dir') else ('sql' if k.startswith('sql') else 'file')
         return {'label': label, 'archive': fam, 'ops': '|'.join(self.cfg['ops']), 'kind': info.get('kind')}
 
     def render(self, a):
@@ -232,7 +245,14 @@ class Conc:
         kind = cfg['kind']
         ops = cfg['ops']
         fs = arch.installer().fresh()
-        a0 = arch.make(kind, 'memo')
+        sql = kind.startswith('sql')
+        scratch = getattr(self, 'scratch', None)
+        if sql:
+            self.shim.close_all()
+            for n in os.listdir(scratch):
+                os.unlink(os.path.join(scratch, n))
+        mk = (lambda: arch.make(kind, 'memo', scratch)) if sql else (lambda: arch.make(kind, 'memo'))
+        a0 = mk()
         old = {}
         for k in ('a', 'b')[:cfg.get('prior', 2)]:
             v = ctx.atom(ValSort, 'v')
@@ -247,20 +267,24 @@ class Conc:
         handles = []
         for o in ops:
             if o == 'open':
-                sch.spawn(o, lambda: arch.make(kind, 'memo') and None)
+                sch.spawn(o, lambda: mk() and None)
             elif o == 'open_cached':
                 sch.spawn(o, lambda: make_cached(kind, 'memo') and None)
             else:
-                h = arch.make(kind, 'memo')        # each process has its own handle (opened beforehand)
+                h = mk()                           # each process has its own handle (opened beforehand)
                 handles.append(h)
                 sch.spawn(o, (lambda f, hh: (lambda: f(hh, vals)))(OPS[o], h))
+        if sql:
+            self.shim.hook = self.shim.read_hook = lambda name: sch.point(name)
         try:
             sch.run()
         finally:
             fs.hook = None
+            if sql:
+                self.shim.hook = self.shim.read_hook = None
         results = [p['res'] for p in sch.procs]
         try:
-            b = arch.make(kind, 'memo')
+            b = mk()
             final = dict(b.items())
         except (PathPruned, Inconclusive):
             raise
@@ -271,6 +295,19 @@ class Conc:
 
     # ---- confirmation on the real file system: real threads, hand-over at the real os calls, sweep of pre-emption points
     def replay(self, assignment, label):
+        if self.cfg['kind'].startswith('sql'):
+            # the symbolic run already used the real sqlite3 on a real database file; the confirmation re-runs the same
+            # schedule with plain values (no proxies) on a fresh database
+            from ksym.core import ReplayCtx
+            self.shim, undo = sqlshim.install()
+            self.scratch = tempfile.mkdtemp(prefix='ksym_sqlreplay_')
+            try:
+                r = ReplayCtx(assignment).run(self.fn)
+            finally:
+                undo()
+                shutil.rmtree(self.scratch, ignore_errors=True)
+            failed = [f for f in r.failed if f[0].split(':')[0] == 'C14']
+            return bool(failed), {'failed': [[f[0], f[1]] for f in r.failed[:5]], 'diverged': r.diverged[:5]}
         if not hasattr(self, '_runs'):
             self._runs = []          # [(schedule, labels)]
             self._gen = self.real_schedules()
@@ -443,6 +480,9 @@ def plan(prop, tier):
         for kind in ('dirjson', 'filejson'):
             for ops in (PAIRS_DIR if kind.startswith('dir') else PAIRS_FILE)[:8]:
                 cfgs.append({'name': 'conc/%s/%s' % (kind, '|'.join(ops)), 'kind': kind, 'ops': list(ops), 'props': ['C14'], 'preemptions': 2})
+    for ops in PAIRS_SQL:
+        cfgs.append({'name': 'conc/sqlfile/%s' % '|'.join(ops), 'kind': 'sqlfile', 'ops': list(ops), 'props': ['C14'],
+                     'preemptions': 2 if q else 3, 'weight': 3})
     for kind in ('dir', 'file'):
         for ops in PAIRS_OPEN:
             for prior in (0, 2):
